@@ -245,7 +245,7 @@ def run(chk):
         return chk.finish()
 
     # ---- A: enums ---------------------------------------------------------------------------------------
-    n_enum = 120 if chk.tier == "quick" else 1500
+    n_enum = 120 if chk.tier == "quick" else 8000
     enums = [gen_enum(rng, merged=(k % 3 == 0)) for k in range(n_enum)]
     fixed = [[[("A", ("auto",)), ("B", ("num", "5", 5)), ("C", ("auto",)), ("D", ("str", "s")), ("F", ("ref", "B", False)), ("G", ("num", "5", 5))], [("H", ("num", "0", 0))]],
              [[("A", ("num", "1", 1)), ("B", ("expr", "A << 1" if False else "1 << 1", 2)), ("C", ("ref", "A", True))]],
